@@ -554,7 +554,8 @@ def timed_oracle(sc, r):
 
 def timed_family(ck, tier, closes_before_join):
     """runs the scenarios, oracle + comparison with the Lean protocol model (PoolTimeout); returns nothing"""
-    scs = timed_scenarios(tier, ck.rng)
+    scs = [c["timed"] for c in json.load(open(VERIF / "corpus" / "C19" / "corpus.json")) if "timed" in c]
+    scs += [sc for sc in timed_scenarios(tier, ck.rng) if sc not in scs]
     results = run_timed(scs)
     mout = None
     if closes_before_join is not None:
@@ -619,7 +620,7 @@ def run(tier, seed):
     if tier == "thorough":
         ck.leanchecker("ScrapliProps.C19")
 
-    corpus = [load_case(c) for c in json.load(open(VERIF / "corpus" / "C19" / "corpus.json"))]
+    corpus = [load_case(c) for c in json.load(open(VERIF / "corpus" / "C19" / "corpus.json")) if "timed" not in c]
     cases = corpus + gen_cases(ck, tier)
     counter = itertools.count()
 
